@@ -284,6 +284,61 @@ fn wait_with_timeout(mut child: std::process::Child, limit: Duration) -> Option<
     }
 }
 
+enum Waited {
+    Done(std::process::ExitStatus, String, String),
+    Watchdog,
+    /// the progress file did not change for the stall limit
+    Stalled,
+}
+
+/// like `wait_with_timeout`, but also gives up when the child's progress file stops changing
+fn wait_child(mut child: std::process::Child, limit: Duration, progress: &Path, stall: Duration) -> Waited {
+    use std::io::Read;
+    let start = Instant::now();
+    let mut so = child.stdout.take();
+    let mut se = child.stderr.take();
+    let t_out = std::thread::spawn(move || {
+        let mut s = String::new();
+        if let Some(o) = so.as_mut() {
+            let _ = o.read_to_string(&mut s);
+        }
+        s
+    });
+    let t_err = std::thread::spawn(move || {
+        let mut s = Vec::new();
+        if let Some(e) = se.as_mut() {
+            let _ = e.read_to_end(&mut s);
+        }
+        String::from_utf8_lossy(&s).to_string()
+    });
+    let mut last_len = 0u64;
+    let mut last_change = Instant::now();
+    loop {
+        match child.try_wait() {
+            Ok(Some(st)) => {
+                let o = t_out.join().unwrap_or_default();
+                let e = t_err.join().unwrap_or_default();
+                return Waited::Done(st, o, e);
+            }
+            Ok(None) => {
+                let len = fs::metadata(progress).map(|m| m.len()).unwrap_or(0);
+                if len != last_len {
+                    last_len = len;
+                    last_change = Instant::now();
+                }
+                let stalled = last_change.elapsed() > stall;
+                if start.elapsed() > limit || stalled {
+                    let _ = child.kill();
+                    let _ = child.wait();
+                    return if stalled { Waited::Stalled } else { Waited::Watchdog };
+                }
+                std::thread::sleep(Duration::from_millis(if start.elapsed() < Duration::from_secs(1) { 2 } else { 25 }));
+            }
+            Err(_) => return Waited::Watchdog,
+        }
+    }
+}
+
 fn self_exe() -> PathBuf {
     std::env::current_exe().expect("current_exe")
 }
@@ -526,7 +581,14 @@ pub fn parent_main(prop: &dyn Property, tier: Tier) -> i32 {
         .stderr(Stdio::piped())
         .spawn()
         .expect("spawn child");
-    let waited = wait_with_timeout(child, limit);
+    // no chunk takes anywhere near this long: a progress file that stops changing means a case hangs
+    let stall = Duration::from_secs(std::env::var("VERIF_STALL_S").ok().and_then(|s| s.parse().ok()).unwrap_or(tier.pick(240, 1200)));
+    let waited_raw = wait_child(child, limit, &prog, stall);
+    let stalled = matches!(waited_raw, Waited::Stalled);
+    let waited = match waited_raw {
+        Waited::Done(st, o, e) => Some((st, o, e)),
+        _ => None,
+    };
     let mut result: Option<Value> = fs::read_to_string(&out).ok().and_then(|t| serde_json::from_str(&t).ok());
     let mut partial_evals = 0u64;
     let mut inconclusive = false;
@@ -549,6 +611,51 @@ pub fn parent_main(prop: &dyn Property, tier: Tier) -> i32 {
     }
 
     match waited {
+        None if stalled => {
+            // locate the case that does not return: trace every chunk that was in flight with a short
+            // limit (the others finish), then re-run the last traced case twice on its own
+            let mut located = false;
+            for (fam, chunk) in started.iter() {
+                let tf = dir.join(format!("trace-{}-{}.json", id, std::process::id()));
+                let _ = fs::remove_file(&tf);
+                let c = Command::new(self_exe())
+                    .args(["trace", id, tier.name(), fam, &chunk.to_string()])
+                    .arg(&tf)
+                    .stdout(Stdio::piped())
+                    .stderr(Stdio::piped())
+                    .spawn()
+                    .expect("spawn trace");
+                if wait_with_timeout(c, stall).is_none() {
+                    if let Some(case) = fs::read_to_string(&tf).ok().and_then(|t| serde_json::from_str::<Value>(&t).ok()) {
+                        let again = [sub_eval(id, tier, &case, true, Duration::from_secs(90)), sub_eval(id, tier, &case, true, Duration::from_secs(90))];
+                        if again.iter().all(|r| matches!(r, SubResult::Timeout)) {
+                            located = true;
+                            let shown: String = case.to_string().chars().take(400).collect();
+                            if prop.hang_is_violation() {
+                                violations.push(Found {
+                                    family: fam.clone(),
+                                    chunk: *chunk,
+                                    index: 0,
+                                    case: case.clone(),
+                                    failure: Failure::new("hang", "hang", format!("the case does not return: no result within 90 s in two separate processes (it stalled the run for {} s before); cases of this family take milliseconds", stall.as_secs())),
+                                });
+                            } else {
+                                println!("INCONCLUSIVE property={id} a case of family {fam} does not return within 90 s (twice, in separate processes): {shown}");
+                                inconclusive = true;
+                            }
+                        }
+                    }
+                }
+                let _ = fs::remove_file(&tf);
+                if located {
+                    break;
+                }
+            }
+            if !located {
+                println!("INCONCLUSIVE property={id} no progress for {}s and the stalled case could not be isolated", stall.as_secs());
+                inconclusive = true;
+            }
+        }
         None => {
             println!("INCONCLUSIVE property={id} watchdog of {}s expired", limit.as_secs());
             inconclusive = true;
